@@ -168,7 +168,7 @@ def main():
     t0 = time.monotonic()
     njobs = a.jobs_count or (2500 if thorough else 110)
     workers = int(os.environ.get('VERIF_JOBS', min(core.ncpu(), 8)))
-    budget = float(os.environ.get('VERIF_BUDGET_S', 1500 if thorough else 150))
+    budget = float(os.environ.get('VERIF_BUDGET_S', 1500 if thorough else 240))
     print('[C16] engine=scansim tier=%s VERIF_SEED=%d jobs<=%d workers=%d' % (tier, root, njobs, workers), flush=True)
 
     # 0. stub calibration (harness check, DESIGN.md §4.2)
